@@ -151,6 +151,7 @@ M = [
     ('csvio', 'tasks_to_raws', 'pjplan/io/raw.py', "            parent_id=t.parent.id if t.parent else None,", "            parent_id=t.parent.id if t.parent and t.parent.id != 0 else None,", 'parent_id'),
     ('critpath', '__forward', 'pjplan/alg/critical_path.py', "                max_start = max(max_start, link.start.start_units + link.units)", "                max_start = max(max_start, link.start.start_units)", 'bellman'),
     ('critpath', '__backward', 'pjplan/alg/critical_path.py', "                min_end = node.start_units", "                min_end = 0", 'Bellman'),
+    ('clone', 'WBS.subtree', 'pjplan/wbs.py', "        return self.__clone(_to_list(roots))", "        self.__clone(_to_list(roots))\n        return self", 'subtree-copies'),
     ('clone', 'WBS.clone', 'pjplan/wbs.py', "        return self.__clone(self.roots)", "        self.__clone(self.roots)\n        return self", 'clone-copies'),
     ('clone', 'WBS.__clone', 'pjplan/wbs.py', "            if not k.startswith('_'):\n                cloned_project.__setattr__(k, self.__getattribute__(k))", "            if not k.startswith('__'):\n                cloned_project.__setattr__(k, self.__getattribute__(k))", 'attribute'),
     ('clone', 'WBS.__clone', 'pjplan/wbs.py', "                cloned_project.__setattr__(k, self.__getattribute__(k))", "                cloned_project.__setattr__(k, cloned_project.__getattribute__(k))", 'attribute'),
